@@ -204,7 +204,7 @@ def case_cipher(o, c, sp, rnd):
         if sp['near']:           # place the counter `near` blocks before its wrap-around: near > blocks stays inside, near <= blocks - 1 overflows
             v = (int.from_bytes(cb, 'big') & ~((1 << bits) - 1)) | (((1 << bits) - sp['near']) & ((1 << bits) - 1)); cb = bytearray(v.to_bytes(16, 'big'))
         cb = bytes(cb); mech = x.M(mname, ctr={'bits': bits, 'cb': cb.hex()}); want = R.ctr(ci, cb, data, bits)
-        overflow = blocks > R.ctr_blocks_before_wrap(cb, bits); mname += ':ctr%s' % ('-wrap' if overflow else '')
+        overflow = blocks > R.ctr_blocks_before_wrap(cb, bits); mname += ':counter-wrap' if overflow else ''
     elif mode == 'gcm':
         iv = rb(rnd, sp['ivlen']); aad = rb(rnd, sp['aadlen']); tl = sp['tagbits'] // 8
         def gm(iv_=iv, aad_=aad): return x.M(sp['mech'], gcm={'iv': iv_.hex(), 'aad': aad_.hex() if aad_ else None, 'tagbits': sp['tagbits']})
